@@ -48,6 +48,33 @@ def enumerate_functions(rep, tier, impl):
                     half = body.split(") (s")
                     if len(half) == 2 and half[0] + ")" != "(s" + half[1]:
                         changed.setdefault(f, prog)
+    # ---- independence: a non-mutating function does not hand back one of its argument containers as its result.
+    # Selections (the result IS one of the inputs by definition) and conversions of a value to its own kind are exempt.
+    PASS_THROUGH = {"identity", "if_empty", "if_null", "if_null_or_empty", "max", "min", "non_empty", "non_zero", "list", "set", "map", "object", "esc", "replace"}
+    APOOL = ["[]", "[5]", "[2, 1]", "[[2, 1]]", "<<>>", "<<1>>", "<<2, 1>>", "<<<>>>", "<<<1 => 2>>>", "<*x = 1*>", "'ab'", "2", "fn(x) x"]
+    aliased = {}
+    for f in names:
+        if f in PASS_THROUGH:
+            continue
+        for arity in (1, 2):
+            for t in itertools.product(range(len(APOOL)), repeat=arity):
+                if arity == 2 and tier != "thorough" and (t[0] * 13 + t[1] + len(f)) % 3 != 0:
+                    continue
+                I.environment = I.base_environment.newEnv()
+                I.interpret("require List unqualified; require Set unqualified; require Stat unqualified; require Math unqualified; "
+                            "require String unqualified; require Type unqualified; require Predicate unqualified", "prelude")
+                defs = "; ".join("def a%d = %s" % (i, APOOL[j]) for i, j in enumerate(t))
+                args = ", ".join("a%d" % i for i in range(arity))
+                out = impl.run_src(I, "%s; def r = do %s(%s) catch all NULL end; 0" % (defs, f, args), seconds=2.0)
+                n += 1
+                if out[0] != "val":
+                    continue
+                r = I.environment.map.get("r")
+                if isinstance(r, (V.ValueList, V.ValueSet, V.ValueMap, V.ValueObject)) and any(r is I.environment.map.get("a%d" % i) for i in range(arity)):
+                    aliased.setdefault(f, "%s; %s(%s)" % (defs, f, args))
+    for f, prog in sorted(aliased.items()):
+        rep.violation("input", "%s returns its argument itself (a later mutation of the result changes the argument): %s" % (f, prog), check="alias", function=f, program=prog)
+    rep.cov["alias_violations"] = len(aliased)
     for f, prog in sorted(changed.items()):
         rep.violation("input", "%s changes an argument: %s" % (f, prog), check="snapshot", function=f, program=prog, want="arguments unchanged")
     rep.count(n)
